@@ -799,3 +799,5 @@ def run(ctx, led):
              "needs an insert that recognises stored-but-removed elements", n7, ctx)
     run_rule(led, "N8", "every predicate a value selector builds has a shape that is undecided on an "
              "unfixed variable (auto-classified, or table entry with arithmetic reason)", n8, ctx)
+    from . import predrules
+    run_rule(led, "N10", "Assignments::evaluate_predicate, by which a proposal is judged decided or not, is exact (shared with C02-U10)", predrules.evaluate_exact, ctx)
